@@ -283,3 +283,189 @@ Proof.
   intros B HB. rewrite (frob2_ext d1 d2 _ (fun i j => mg M i j - recon U0 S0 V0 i j)) by (intros i j _ _; now rewrite RC).
   now apply BEST.
 Qed.
+
+(* ================= round 6: masked end-to-end statements for symeig_svd and randomized_svd ================= *)
+Definition gram_of (d1 d2 : nat) (X : list (list R)) : list (list R) :=
+  if (d2 <? d1)%nat then mmul Rops d1 X (transp Rops d2 X) else mmul Rops d2 (transp Rops d2 X) X.
+
+Lemma symeig_all (eigh : list (list R) -> list R * list (list R)) epsd (X : list (list R)) d1 d2 n lam W :
+  rect d1 d2 X ->
+  let d := if (d2 <? d1)%nat then d1 else d2 in
+  (forall G0, length (fst (eigh G0)) = d /\ rect d d (snd (eigh G0))) ->
+  eigh (gram_of d1 d2 X) = (lam, W) -> eigh_contract2 d (gram_of d1 d2 X) lam W ->
+  let k := n_kept d1 d2 n in
+  (k <= Nat.min d1 d2)%nat ->
+  (forall t, (t < k)%nat -> 0 <= epsd < nth (d - 1 - t) lam 0) ->
+  let '(U0, S0, V0) := symeig_svd Rops eigh sqrt epsd X d1 d2 n in
+  rect d1 k U0 /\ rect k d2 V0 /\ length S0 = k /\
+  (forall t, (t < k)%nat -> nth t S0 0 = sqrt (nth (d - 1 - t) lam 0) /\ 0 < nth t S0 0) /\
+  orthonormal_cols d1 k (mg U0) /\ orthonormal_rows k d2 (mg V0) /\
+  frob2 d1 d2 (fun i j => mg X i j - recon U0 S0 V0 i j) = rsum (d - k) (fun t => nth (d - 1 - (k + t)) lam 0).
+Proof.
+  intros HM d HSH HE HC k Hk Heps.
+  pose proof (symeig_shapes eigh sqrt epsd X d1 d2 n HM) as SH. cbv zeta in SH. fold k in SH.
+  assert (HSH' : forall G0, let d0 := if (d2 <? d1)%nat then d1 else d2 in length (fst (eigh G0)) = d0 /\ rect d0 d0 (snd (eigh G0))) by exact HSH.
+  specialize (SH HSH').
+  assert (P : Nat.min (Nat.min d1 d2) k = k) by lia.
+  unfold d, gram_of in *. destruct (Nat.ltb_spec d2 d1) as [Ht|Hw].
+  - pose proof (symeig_tall_svd eigh epsd X d1 d2 n lam W Ht HM HE HC) as T. cbv zeta in T. fold k in T. rewrite P in T.
+    destruct (symeig_svd Rops eigh sqrt epsd X d1 d2 n) as [[U0 S0] V0]. specialize (T Heps).
+    destruct SH as (RU & _ & RV). replace (Nat.min d1 k) with k in RU by lia. replace (Nat.min d2 k) with k in RV by lia.
+    destruct T as (A1 & A2 & A3 & A4 & A5).
+    split; [exact RU | split; [exact RV | split; [exact A1 | split; [exact A2 | split; [exact A3 | split; [exact A4 | exact A5]]]]]].
+  - pose proof (symeig_wide_svd eigh epsd X d1 d2 n lam W Hw HM HE HC) as T. cbv zeta in T. fold k in T. rewrite P in T.
+    destruct (symeig_svd Rops eigh sqrt epsd X d1 d2 n) as [[U0 S0] V0]. specialize (T Heps).
+    destruct SH as (RU & _ & RV). replace (Nat.min d1 k) with k in RU by lia. replace (Nat.min d2 k) with k in RV by lia.
+    destruct T as (A1 & A2 & A3 & A4 & A5).
+    split; [exact RU | split; [exact RV | split; [exact A1 | split; [exact A2 | split; [exact A3 | split; [exact A4 | exact A5]]]]]].
+Qed.
+
+(* svd_interface(method = 'symeig_svd') with a mask: the sign-resolved symeig SVD of the LAST imputed matrix *)
+Theorem interface_masked_symeig_e2e (eigh : list (list R) -> list R * list (list R)) (funs : fname -> nat -> list (list R) -> triple R)
+    epsd (Ml mask : list (list R)) d1 d2 r flip ub iters sq eps U Sg V :
+  rect d1 d2 Ml -> rect d1 d2 mask -> (1 <= d1)%nat -> (1 <= iters)%nat -> (r <= Nat.min d1 d2)%nat ->
+  let d := if (d2 <? d1)%nat then d1 else d2 in
+  (forall G0, length (fst (eigh G0)) = d /\ rect d d (snd (eigh G0))) ->
+  (forall X, rect d1 d2 X ->
+     eigh_contract2 d (gram_of d1 d2 X) (fst (eigh (gram_of d1 d2 X))) (snd (eigh (gram_of d1 d2 X))) /\
+     forall t, (t < r)%nat -> 0 <= epsd < nth (d - 1 - t) (fst (eigh (gram_of d1 d2 X))) 0) ->
+  (forall cl X, funs FSymeig cl X = symeig_svd Rops eigh sqrt epsd X d1 d2 (Some r)) ->
+  svd_interface Rops funs MSymeig d2 Ml (Some r) flip ub None (Some mask) iters sq eps = Ok (U, Sg, V) ->
+  exists Mlast,
+    rect d1 d2 Mlast /\
+    (forall i j, (i < d1)%nat -> (j < d2)%nat -> mg mask i j = 1 -> mg Mlast i j = mg Ml i j) /\
+    let lam := fst (eigh (gram_of d1 d2 Mlast)) in
+    length Sg = r /\
+    (forall t, (t < r)%nat -> nth t Sg 0 = sqrt (nth (d - 1 - t) lam 0) /\ 0 < nth t Sg 0) /\
+    orthonormal_cols d1 r (mg U) /\ orthonormal_rows r d2 (mg V) /\
+    frob2 d1 d2 (fun i j => mg Mlast i j - recon U Sg V i j) = rsum (d - r) (fun t => nth (d - 1 - (r + t)) lam 0).
+Proof.
+  intros HM Hmask Hd1 Hit Hr d HSH HALL HF E.
+  assert (K : n_kept d1 d2 (Some r) = r) by (rewrite n_kept_spec; lia).
+  assert (ALL : forall X, rect d1 d2 X ->
+            let '(U0, S0, V0) := symeig_svd Rops eigh sqrt epsd X d1 d2 (Some r) in
+            rect d1 r U0 /\ rect r d2 V0 /\ length S0 = r /\
+            (forall t, (t < r)%nat -> nth t S0 0 = sqrt (nth (d - 1 - t) (fst (eigh (gram_of d1 d2 X))) 0) /\ 0 < nth t S0 0) /\
+            orthonormal_cols d1 r (mg U0) /\ orthonormal_rows r d2 (mg V0) /\
+            frob2 d1 d2 (fun i j => mg X i j - recon U0 S0 V0 i j)
+              = rsum (d - r) (fun t => nth (d - 1 - (r + t)) (fst (eigh (gram_of d1 d2 X))) 0)).
+  { intros X HX. destruct (HALL X HX) as [HC He].
+    destruct (eigh (gram_of d1 d2 X)) as [lam W] eqn:EE. cbn [fst snd] in HC, He |- *.
+    pose proof (symeig_all eigh epsd X d1 d2 (Some r) lam W HX HSH EE HC) as T. cbv zeta in T. rewrite K in T.
+    apply T; [lia | exact He]. }
+  destruct (interface_masked_generic funs MSymeig FSymeig d1 d2 Ml mask r flip ub iters sq eps U Sg V r r)
+    as (Mlast & c & U0 & S0 & V0 & R1 & O1 & EF & ES & OU & OV & RC & _); try assumption; try reflexivity.
+  { intros c X HX. rewrite HF. specialize (ALL X HX). destruct (symeig_svd Rops eigh sqrt epsd X d1 d2 (Some r)) as [[U0 S0] V0].
+    destruct ALL as (A1 & A2 & A3 & _ & A5 & A6 & _).
+    split; [exact A1 | split; [exact A2 | split; [lia | split; [lia | split; [exact A5 | exact A6]]]]]. }
+  exists Mlast. split; [exact R1 | split; [exact O1|]]. cbv zeta.
+  specialize (ALL Mlast R1). rewrite HF in EF. rewrite EF in ALL. destruct ALL as (_ & _ & A3 & A4 & _ & _ & A7). subst Sg.
+  split; [exact A3 | split; [exact A4 | split; [exact OU | split; [exact OV|]]]].
+  rewrite <- A7. apply frob2_ext. intros i j _ _. now rewrite RC.
+Qed.
+
+(* svd_interface(method = 'randomized_svd'), non-transposed branch, with a mask: on the LAST imputed matrix the triple has orthonormal
+   factors and is a best approximation of rank <= n_eigenvecs, PROVIDED the range finder's Q covers the range of every imputed matrix *)
+Theorem interface_masked_randomized_direct_partial (svd : list (list R) -> bool -> triple R) (qr : nat -> list (list R) -> list (list R))
+    (funs : fname -> nat -> list (list R) -> triple R) (G Ml mask : list (list R)) d1 d2 r n_over n_iter c flip ub iters sq eps U Sg V :
+  rect d1 d2 Ml -> rect d1 d2 mask -> (1 <= d1)%nat -> (1 <= iters)%nat ->
+  let k := n_kept d1 d2 (Some r) in
+  dec_rand_transposed d1 d2 k (Nat.min d1 d2) (dec_rand_ndims k n_over (Nat.max d1 d2)) = false ->
+  (forall X, rect d1 d2 X ->
+     let Q := range_finder Rops qr X d2 G n_iter in
+     rect d1 c Q /\ orthonormal_cols d1 c (mg Q) /\ covers d1 d2 c (mg X) (mg Q) /\
+     forall f, svd_contract c d2 (mg (mmul Rops d2 (transp Rops c Q) X)) f (svd (mmul Rops d2 (transp Rops c Q) X) f)) ->
+  (forall cl X, funs FRandomized cl X = randomized_svd Rops svd qr G X d1 d2 (Some r) n_over n_iter) ->
+  svd_interface Rops funs MRandomized d2 Ml (Some r) flip ub None (Some mask) iters sq eps = Ok (U, Sg, V) ->
+  let kk := Nat.min k (Nat.max c d2) in
+  exists Mlast,
+    rect d1 d2 Mlast /\
+    (forall i j, (i < d1)%nat -> (j < d2)%nat -> mg mask i j = 1 -> mg Mlast i j = mg Ml i j) /\
+    nonneg_list Sg /\ nonincreasing Sg /\
+    orthonormal_cols d1 (Nat.min kk c) (mg U) /\ orthonormal_rows (Nat.min kk d2) d2 (mg V) /\
+    (forall B, rank_le d1 d2 k B ->
+       frob2 d1 d2 (fun i j => mg Mlast i j - recon U Sg V i j) <= frob2 d1 d2 (fun i j => mg Mlast i j - B i j)).
+Proof.
+  intros HM Hmask Hd1 Hit k HB HALL HF E kk.
+  assert (ALL : forall X, rect d1 d2 X -> forall U0 S0 V0, randomized_svd Rops svd qr G X d1 d2 (Some r) n_over n_iter = (U0, S0, V0) ->
+            shape3 (U0, S0, V0) d1 (Nat.min kk c) (Nat.min kk (Nat.min c d2)) (Nat.min kk d2) d2 /\
+            nonneg_list S0 /\ nonincreasing S0 /\
+            orthonormal_cols d1 (Nat.min kk c) (mg U0) /\ orthonormal_rows (Nat.min kk d2) d2 (mg V0) /\
+            (forall B, rank_le d1 d2 k B ->
+               frob2 d1 d2 (fun i j => mg X i j - recon U0 S0 V0 i j) <= frob2 d1 d2 (fun i j => mg X i j - B i j))).
+  { intros X HX U0 S0 V0 ER. destruct (HALL X HX) as (RQ & OQ & CQ & HS).
+    destruct (randomized_svd_direct_partial svd qr G X d1 d2 (Some r) n_over n_iter c U0 S0 V0 HX Hd1 HB RQ OQ CQ HS ER)
+      as (SH & _ & N1 & N2 & OU & OV & _ & BA).
+    split; [exact SH | split; [exact N1 | split; [exact N2 | split; [exact OU | split; [exact OV | exact BA]]]]]. }
+  destruct (interface_masked_generic funs MRandomized FRandomized d1 d2 Ml mask r flip ub iters sq eps U Sg V (Nat.min kk c) (Nat.min kk d2))
+    as (Mlast & cl & U0 & S0 & V0 & R1 & O1 & EF & ES & OU & OV & RC & _); try assumption; try reflexivity.
+  { intros cl X HX. rewrite HF. destruct (randomized_svd Rops svd qr G X d1 d2 (Some r) n_over n_iter) as [[U0 S0] V0] eqn:ER.
+    destruct (ALL X HX U0 S0 V0 ER) as ((RU & LS & RV) & _ & _ & A4 & A5 & _).
+    split; [exact RU | split; [exact RV | split; [rewrite LS; lia | split; [rewrite LS; lia | split; [exact A4 | exact A5]]]]]. }
+  exists Mlast. split; [exact R1 | split; [exact O1|]].
+  rewrite HF in EF. destruct (ALL Mlast R1 U0 S0 V0 EF) as (_ & N1 & N2 & _ & _ & BA). subst Sg.
+  split; [exact N1 | split; [exact N2 | split; [exact OU | split; [exact OV|]]]].
+  intros B HBk. rewrite (frob2_ext d1 d2 _ (fun i j => mg Mlast i j - recon U0 S0 V0 i j)) by (intros i j _ _; now rewrite RC).
+  now apply BA.
+Qed.
+
+(* the non_negative step does not touch the singular values: with and without the option svd_interface returns the same S *)
+Theorem interface_nn_same_S (funs : fname -> nat -> list (list R) -> triple R) meth d2 Ml n flip ub ty mask iters sq eps U S V U' S' V' :
+  svd_interface Rops funs meth d2 Ml n flip ub (Some ty) mask iters sq eps = Ok (U, S, V) ->
+  svd_interface Rops funs meth d2 Ml n flip ub None mask iters sq eps = Ok (U', S', V') -> S = S'.
+Proof.
+  unfold svd_interface. destruct (dispatch meth) as [fn|]; [|discriminate].
+  destruct (match mask with
+            | Some msk => match n with
+                          | Some _ => mask_loop Rops (funs fn) d2 msk iters 1 Ml (funs fn 0%nat Ml)
+                          | None => (Ml, funs fn 0%nat Ml) end
+            | None => (Ml, funs fn 0%nat Ml) end) as [M1 [[U1 S1] V1]].
+  destruct (if flip then svd_flip Rops U1 V1 ub else (U1, V1)) as [U2 V2].
+  destruct (make_svd_non_negative Rops sq eps M1 U2 S1 V2 ty) as [W H].
+  intros E1 E2. inversion E1; inversion E2; subst. reflexivity.
+Qed.
+
+(* the transposed branch under a mask *)
+Theorem interface_masked_randomized_transposed_partial (svd : list (list R) -> bool -> triple R) (qr : nat -> list (list R) -> list (list R))
+    (funs : fname -> nat -> list (list R) -> triple R) (G Ml mask : list (list R)) d1 d2 r n_over n_iter c flip ub iters sq eps U Sg V :
+  rect d1 d2 Ml -> rect d1 d2 mask -> (1 <= d1)%nat -> (1 <= d2)%nat -> (1 <= iters)%nat ->
+  let k := n_kept d1 d2 (Some r) in
+  dec_rand_transposed d1 d2 k (Nat.min d1 d2) (dec_rand_ndims k n_over (Nat.max d1 d2)) = true ->
+  (forall X, rect d1 d2 X ->
+     let Q := range_finder Rops qr (transp Rops d2 X) d1 G n_iter in
+     let Mred := transp Rops d1 (mmul Rops d1 (transp Rops c Q) (transp Rops d2 X)) in
+     rect d2 c Q /\ orthonormal_cols d2 c (mg Q) /\ coversT d1 d2 c (mg X) (mg Q) /\
+     forall f, svd_contract d1 c (mg Mred) f (svd Mred f)) ->
+  (forall cl X, funs FRandomized cl X = randomized_svd Rops svd qr G X d1 d2 (Some r) n_over n_iter) ->
+  svd_interface Rops funs MRandomized d2 Ml (Some r) flip ub None (Some mask) iters sq eps = Ok (U, Sg, V) ->
+  let kk := Nat.min k (Nat.max d1 c) in
+  exists Mlast,
+    rect d1 d2 Mlast /\
+    (forall i j, (i < d1)%nat -> (j < d2)%nat -> mg mask i j = 1 -> mg Mlast i j = mg Ml i j) /\
+    nonneg_list Sg /\ nonincreasing Sg /\
+    orthonormal_cols d1 (Nat.min kk d1) (mg U) /\ orthonormal_rows (Nat.min kk c) d2 (mg V) /\
+    (forall B, rank_le d1 d2 k B ->
+       frob2 d1 d2 (fun i j => mg Mlast i j - recon U Sg V i j) <= frob2 d1 d2 (fun i j => mg Mlast i j - B i j)).
+Proof.
+  intros HM Hmask Hd1 Hd2 Hit k HB HALL HF E kk.
+  assert (ALL : forall X, rect d1 d2 X -> forall U0 S0 V0, randomized_svd Rops svd qr G X d1 d2 (Some r) n_over n_iter = (U0, S0, V0) ->
+            shape3 (U0, S0, V0) d1 (Nat.min kk d1) (Nat.min kk (Nat.min d1 c)) (Nat.min kk c) d2 /\
+            nonneg_list S0 /\ nonincreasing S0 /\
+            orthonormal_cols d1 (Nat.min kk d1) (mg U0) /\ orthonormal_rows (Nat.min kk c) d2 (mg V0) /\
+            (forall B, rank_le d1 d2 k B ->
+               frob2 d1 d2 (fun i j => mg X i j - recon U0 S0 V0 i j) <= frob2 d1 d2 (fun i j => mg X i j - B i j))).
+  { intros X HX U0 S0 V0 ER. destruct (HALL X HX) as (RQ & OQ & CQ & HS).
+    destruct (randomized_svd_transposed_partial svd qr G X d1 d2 (Some r) n_over n_iter c U0 S0 V0 HX Hd2 HB RQ OQ CQ HS ER)
+      as (SH & _ & N1 & N2 & OU & OV & _ & BA).
+    split; [exact SH | split; [exact N1 | split; [exact N2 | split; [exact OU | split; [exact OV | exact BA]]]]]. }
+  destruct (interface_masked_generic funs MRandomized FRandomized d1 d2 Ml mask r flip ub iters sq eps U Sg V (Nat.min kk d1) (Nat.min kk c))
+    as (Mlast & cl & U0 & S0 & V0 & R1 & O1 & EF & ES & OU & OV & RC & _); try assumption; try reflexivity.
+  { intros cl X HX. rewrite HF. destruct (randomized_svd Rops svd qr G X d1 d2 (Some r) n_over n_iter) as [[U0 S0] V0] eqn:ER.
+    destruct (ALL X HX U0 S0 V0 ER) as ((RU & LS & RV) & _ & _ & A4 & A5 & _).
+    split; [exact RU | split; [exact RV | split; [rewrite LS; lia | split; [rewrite LS; lia | split; [exact A4 | exact A5]]]]]. }
+  exists Mlast. split; [exact R1 | split; [exact O1|]].
+  rewrite HF in EF. destruct (ALL Mlast R1 U0 S0 V0 EF) as (_ & N1 & N2 & _ & _ & BA). subst Sg.
+  split; [exact N1 | split; [exact N2 | split; [exact OU | split; [exact OV|]]]].
+  intros B HBk. rewrite (frob2_ext d1 d2 _ (fun i j => mg Mlast i j - recon U0 S0 V0 i j)) by (intros i j _ _; now rewrite RC).
+  now apply BA.
+Qed.
